@@ -78,6 +78,21 @@ theorem gen_has_even_y (P : Secp.Point) :
     Gen.schnorr_has_even_y (castP P) = (match P with | none => .error .assertion | some (_, y) => .ok (y % 2 == 0)) :=
   GenSchnorr.gen_has_even_y P
 
+/-! ### BIP340 signing and verification as generated code
+
+`schnorr_verify` and `schnorr_sign` (with `tagged_hash`, `bytes_from_int`, `bytes_from_point`, `xor_bytes`, `int_from_bytes`) are
+re-translated on every run, `hashlib.sha256` being a parameter.  They are equal — results *and* exceptions — to the hand model
+`Model.schnorrVerify` / `Model.schnorrSign` on every input, so `C20.verify_eq_spec`, `C20.sign_eq_spec`,
+`C20.sign_never_fails_unconditional` … are statements about the translated source. -/
+
+theorem gen_schnorr_verify (sha256 : Bytes → Bytes) (msg pk sig : Bytes) :
+    Gen.schnorr_verify sha256 msg pk sig = Model.schnorrVerify sha256 msg pk sig :=
+  GenSchnorr.gen_schnorr_verify sha256 msg pk sig
+
+theorem gen_schnorr_sign (sha256 : Bytes → Bytes) (msg sk aux : Bytes) :
+    Gen.schnorr_sign sha256 msg sk aux = Model.schnorrSign sha256 msg sk aux :=
+  GenSchnorr.gen_schnorr_sign sha256 msg sk aux
+
 -- sanity on a concrete value (kernel evaluation): 2·G through the generated code
 example : (Gen.schnorr_point_add (GenSchnorr.castP Secp.G) (GenSchnorr.castP Secp.G)).toOption
     = some (GenSchnorr.castP (Secp.add Secp.G Secp.G)) := by decide +kernel
